@@ -23,7 +23,7 @@ theorem chk_id (st : HSt) (e : ILEffect) (after : Bool) {lo hi : Nat} (hp : Pend
     (ht : TmpsIn (tmpsOfEffect e) lo hi) : chk st e [] after = (e, st) := by
   apply chk_noleaf
   intro n hn p hpp
-  rw [List.append_nil] at hn
+  rw [List.nil_append] at hn
   obtain ⟨i, h1, _, rfl⟩ := ht n hn
   obtain ⟨_, j, hj, e⟩ := hp p hpp
   rw [e]; exact hname_ne (by omega)
@@ -34,7 +34,9 @@ theorem chk_pop_last (st : HSt) (e : ILEffect) (P : List Pend) (p : Pend) (n : S
     chk st e [n] true = (.seqn [e, p.render], { st with pending := P }) := by
   subst hn
   unfold chk
-  rw [hst, popPending_append _ _ _ he, popPending_last P p hP]
+  have hl := popPending_last P p hP
+  rw [hst, popPending_append_none _ _ _ (by
+    rw [hl]; intro n hn q hq; exact he n hn q (List.mem_append_left _ hq)), hl]
   rfl
 
 /-- the pending entry of a postfix `v++`/`v--` numbered `k` -/
